@@ -41,6 +41,13 @@ Flat(ns, preserve) == IF ns = <<>> THEN <<>> ELSE Contribution(Head(ns), preserv
 
 ResultChildren(raw, preserve) == Merge(Flat(Nodes(raw), preserve))
 
+(* "an ancestor has xml:space=preserve": the xml:space attributes of the element and its ancestors IN ITS OWN STYLESHEET DOCUMENT,      *)
+(* outermost (xsl:stylesheet) first, each "none" / "preserve" / "default"; the nearest one that is given decides (3.4: "... and no       *)
+(* closer ancestor element has xml:space with a value of default").  A document that is included or imported is a tree of its own: what *)
+(* the including document says on its xsl:stylesheet element is not in the chain.                                                      *)
+Preserved(chain) == LET S == {i \in 1..Len(chain) : chain[i] # "none"} IN
+                    S # {} /\ chain[CHOOSE i \in S : \A j \in S : j <= i] = "preserve"
+
 (* the reading of a processor whose parser does not report comments (they do not end a text node); used to NAME  *)
 (* that deviation, never to accept it                                                                             *)
 WithoutComments(raw) == SelectSeq(raw, LAMBDA x : x.k # "c")
